@@ -72,7 +72,7 @@ func siteOfPanic() string {
 
 // the follow-up battery of EFollow; followStage names the follow-up that was running when a panic hit
 var followUps = []string{"(def zz1 1)", "(let [zz2 2] (+ zz1 zz2))", "(defn zz3 [a] (+ a 1)) (zz3 1)", "(str (list 1 [2] (hash a:3)))",
-	"#clear", "(def zz4 1)", "(defn zz5 [] (fn [] zz4)) ((zz5))", "(for [(def zi 0) (< zi 2) (set zi (+ zi 1))] zi)"}
+	"#clear", "(def zz4 1)", "(defn zz5 [] (fn [] zz4)) ((zz5))", "(for [(def zi 0) (< zi 2) (set zi (+ zi 1))] zi)", "(gensym)", "((fn [a] a) 1)"}
 var followStage string
 
 func guard(f func() string) (obs string, pi *panicInfo) {
